@@ -357,7 +357,10 @@ def st_sum (l : Cls) : Steps :=
     pySumDecimals l
   match a with
   | none => unkeyed
-  | some k => if k == none_ || k == undefined then unkeyed else forItems l (fun e => getitemH e k) }
+  | some k => if k == none_ || k == undefined then unkeyed else do
+      forItems l (fun e => getitemH e k)
+      -- `_getitem("abc", "b")` returns the key itself when it occurs in the string: it is then converted
+      if l.isStr && k.isStr then Res.alt (pure ()) (decimalArg k (some ())) else pure () }
 
 def st_date (l : Cls) : Steps :=
   {
